@@ -8,6 +8,7 @@ CONSTANTS
   RejectChoices = {TRUE}
   MaxPairChoices = {0}
   Classes = {"A","N","W","E"}
+  PriorChoices = {"none","stale"}
   PlainStrats = {1}
   PairLevelOnly = FALSE
   Variant = "design"
